@@ -230,6 +230,38 @@ def oracle_shared(specs):
     return None
 
 
+def oracle_additive(specs):
+    """Execution counts add up: for the list as it is and for every trace followed directly by an equal copy
+    (where an accumulator equal to the merged-in trace occurs).  Returns (signature, message)|None."""
+    from pynguin.ga.fitness_metrics import analyze_results
+
+    def counts(idx):
+        merged = analyze_results([_Res(L.build_trace(specs[i])) for i in idx])
+        exp = {}
+        for i in idx:
+            for k, c in specs[i]["pred"]:
+                exp[k] = exp.get(k, 0) + c
+        return dict(merged.executed_predicates), exp
+    n = len(specs)
+    orders = [list(range(n))] + [[i, i] + [j for j in range(n) if j != i] for i in range(min(n, 3))]
+    for idx in orders:
+        got, exp = counts(idx)
+        if got != exp:
+            dup = len(set(idx)) < len(idx)
+            return ("additive:executed_predicates" + (":equal-traces" if dup else ""),
+                    f"analyze_results over traces {idx}: execution counts {sorted(got.items())}, the sum is {sorted(exp.items())}")
+        first = L.build_trace(specs[idx[0]])
+        if n and len(idx) >= 2 and idx[0] == idx[1]:
+            twin = L.build_trace(specs[idx[0]])
+            before = L.project(first)
+            first.merge(twin)
+            after = L.project(first)
+            if before["instr"] and len(after["instr"]) != 2 * len(before["instr"]):
+                return ("additive:executed_instructions:equal-traces",
+                        "merging an equal trace did not append its instructions")
+    return None
+
+
 def oracle_monotone(specs, base_idx, add_idx, pos, sp, ex):
     """Suite `base` vs `base` with test `add` inserted at `pos`: every coverage must not drop, every
     fitness must not rise, covered verdicts must stay.  Returns (function name, before, after)|None."""
@@ -277,6 +309,13 @@ def gen_family(rng, kind):
         specs = [L.gen_valid_trace(rng, ids) for _ in range(n)]
     else:
         specs = [L.gen_malformed_trace(rng, ids) if rng.random() < 0.7 else L.gen_valid_trace(rng, ids) for _ in range(n)]
+    # test cases that do the same thing have EQUAL traces (a test and its clone): put copies next to and
+    # away from their original
+    if rng.random() < 0.4:
+        for _ in range(rng.choice([1, 1, 2])):
+            i = rng.randrange(len(specs))
+            dup = json.loads(json.dumps(L.spec_to_json(specs[i])))
+            specs.insert(rng.choice([i + 1, rng.randrange(len(specs) + 1)]), L.spec_from_json(dup))
     return {"kind": kind, "reg": reg, "specs": specs}
 
 
@@ -340,6 +379,11 @@ def assertion_run_families(ctx, n_runs):
         if "error" in r:
             ctx.count("assert-run:error")
             ctx.notes.append(f"assertion run {job}: {r['error']}")
+            continue
+        if r.get("flaky"):
+            ctx.count("assert-run:flaky-execution(timeout)")
+            ctx.notes.append(f"assertion run {job}: a test execution timed out / was not repeatable; run ignored "
+                             f"(would-be signals: {r['dropped_failures']})")
             continue
         ctx.count("assert-run:ok")
         ctx.count("assert-run:executed-assertions", r["n_assertions"])
@@ -458,7 +502,7 @@ def _assert_child(job):
                     s.add_test_case_chromosome(c)
                 return s
 
-            covs = []
+            covs, fresh = [], []
             try:
                 prev = None
                 for k in range(1, len(chroms) + 1):
@@ -510,6 +554,19 @@ def _assert_child(job):
                                          f"the same tests in the other order {c2} (slice crosses the test boundary)"))
                 except Exception as e:  # noqa: BLE001
                     failures.append((f"assertion_checked_coverage:raises:{type(e).__name__}", f"{type(e).__name__}: {e}"))
+            # a test execution that timed out (machine under load) gives an empty trace: such a run is no
+            # ground truth; likewise when two fresh evaluations of the same tests disagree
+            timed_out = any(getattr(c.get_last_execution_result(), "timeout", False)
+                            for c in chroms + fresh if c.get_last_execution_result() is not None)
+            if failures and not timed_out:
+                try:
+                    f1 = cov_fn.compute_coverage(suite_of([tcc.TestCaseChromosome(c.test_case.clone()) for c in chroms]))
+                    f2 = cov_fn.compute_coverage(suite_of([tcc.TestCaseChromosome(c.test_case.clone()) for c in chroms]))
+                    timed_out = f1 != f2
+                except Exception:  # noqa: BLE001
+                    pass
+            if timed_out:
+                return {"flaky": True, "dropped_failures": [f[0] for f in failures]}
             # projections of freshly executed tests for the model comparison in the parent
             specs = []
             for c in chroms:
@@ -563,6 +620,13 @@ def check_family(ctx, fam, cases, recs):
     if any(s.get("asserts") for s in specs):
         ctx.count("families-with-executed-assertions")
     r = oracle_shared(specs)
+    if r:
+        failures += 1
+        ctx.fail(r[0], r[1], replay)
+    # --- S: execution counts are additive, equal traces included
+    if len({repr(s) for s in specs}) < n:
+        ctx.count("families-with-equal-traces")
+    r = oracle_additive(specs)
     if r:
         failures += 1
         ctx.fail(r[0], r[1], replay)
